@@ -294,6 +294,48 @@ def raises(ctx):
                     msg='%s subscripts the table `%s`, which it has just built, with `%s`, which comes from the statements: for a name the table '
                         'lacks a bare KeyError escapes instead of ParsingException / a metamodel exception; reachable via %s'
                         % (q, tname, key, ' -> '.join(cg.path(roots[0], q) or cg.path(roots[1], q) or [q])))
+    # a list of the statement subscripted with a position found in ANOTHER list of the statement (values[names.index(..)]): IndexError when
+    # the statement has fewer values than names, unless the two lengths were compared before
+    for q in sorted(reach):
+        if not q.startswith('xtuml.load:'):
+            continue
+        fn_ = cg.funcs[q]
+        idx_of = {}
+        for a_ in walk_local(fn_):
+            if isinstance(a_, ast.Assign) and len(a_.targets) == 1 and isinstance(a_.targets[0], ast.Name) and isinstance(a_.value, ast.Call) and \
+                    isinstance(a_.value.func, ast.Attribute) and a_.value.func.attr == 'index':
+                idx_of[a_.targets[0].id] = a_.value.func.value
+        for node in walk_local(fn_):
+            if not (isinstance(node, ast.Subscript) and isinstance(node.ctx, ast.Load) and isinstance(node.value, ast.Attribute) and node.value.attr == 'values'):
+                continue
+            ix = node.slice
+            src_list = idx_of.get(ix.id) if isinstance(ix, ast.Name) else (ix.func.value if isinstance(ix, ast.Call) and isinstance(ix.func, ast.Attribute)
+                                                                            and ix.func.attr == 'index' else None)
+            if src_list is None:
+                continue
+            stmt_ = src(node.value.value)
+            lens = set()
+            guarded = False
+            for t_ in walk_local(fn_):
+                if isinstance(t_, ast.If) and t_.lineno < node.lineno and t_.body and isinstance(t_.body[-1], (ast.Raise, ast.Return, ast.Continue)):
+                    calls_ = [src(c_.args[0]) for c_ in ast.walk(t_.test) if isinstance(c_, ast.Call) and dotted(c_.func) == 'len' and c_.args]
+                    if ('%s.values' % stmt_) in calls_ and len(set(calls_)) >= 2:
+                        guarded = True
+            cur = node
+            par2 = {}
+            for x_ in ast.walk(fn_):
+                for ch_ in ast.iter_child_nodes(x_):
+                    par2[id(ch_)] = x_
+            while par2.get(id(cur)) is not None:
+                p2 = par2[id(cur)]
+                if isinstance(p2, ast.Try) and cur in p2.body and any(h_.type is None or 'IndexError' in src(h_.type) or src(h_.type) in ('Exception', 'LookupError')
+                                                                       for h_ in p2.handlers):
+                    guarded = True
+                cur = p2
+            r.check(guarded, '%s: %s is read at a position that exists' % (q, src(node)), node, construct=q, key='values-by-position-of-names',
+                    msg='%s reads `%s` at a position taken from `%s`: an INSERT with named columns and fewer values than names is accepted by the parser, '
+                        'and building the metamodel then ends in a bare IndexError instead of ParsingException; nothing compares the two lengths first'
+                        % (q, src(node), src(src_list)))
     n_impl = 0
     in_action = [False]
     for q in sorted(reach):
